@@ -240,6 +240,39 @@ def extent(out):
 
 # ------------------------------------------------------------------ C03
 
+def reaction_rounding(out):
+    """float rounding in the recovery of bar-end forces at supports: each is a sum of stiffness x displacement terms of the
+    end finite element; with a very short element (a load a hair from the bar end) those terms are huge and nearly cancel.
+    Returns (force allowance, moment allowance) = 16 ulp x the largest sum of |k_ij| |u_j| over the rows of the end elements
+    of bars that reach a supported node."""
+    try:
+        pre = out["Pre"][-1]
+        u = [abs(float(v)) for v in out["U"]]
+        nodes = {nd["ID"]: nd for nd in out["Nodes"]}
+        byid = {b["ID"]: b for b in out["Bars"]}
+    except (KeyError, IndexError, TypeError, ValueError):
+        return Fr(0), Fr(0)
+    worst_f = worst_m = 0.0
+    for pb in pre["Bars"]:
+        jb = byid.get(pb["ID"])
+        if jb is None or len(pb["Nodes"]) < 2:
+            continue
+        L, EA, EI = float(jb["Len"]), float(jb["E"]) * float(jb["A"]), float(jb["E"]) * float(jb["I"])
+        for nid, (a, b) in ((jb["N1"], (pb["Nodes"][0], pb["Nodes"][1])), (jb["N2"], (pb["Nodes"][-2], pb["Nodes"][-1]))):
+            nd = nodes.get(nid)
+            if nd is None or not (nd["Dx"] or nd["Dy"] or nd["Rz"]):
+                continue
+            l = L * abs(float(b["T"]) - float(a["T"]))
+            if l <= 0:
+                continue
+            ua = [u[k] if 0 <= k < len(u) else 0.0 for k in list(a["Dof"]) + list(b["Dof"])]
+            ut, ur = max(ua[0], ua[1], ua[3], ua[4]), max(ua[2], ua[5])
+            worst_f = max(worst_f, 2 * (EA / l) * ut + 24 * (EI / l ** 3) * ut + 12 * (EI / l ** 2) * ur)
+            worst_m = max(worst_m, 12 * (EI / l ** 2) * ut + 6 * (EI / l) * ur)
+    k = 16 * 2.0 ** -53
+    return Fr(k * worst_f), Fr(k * worst_m)
+
+
 def c03_reactions(out, weight, exact=None, utol=None):
     fails = []
     if out.get("SolvePanic") or out.get("Reactions") is None:
@@ -271,7 +304,8 @@ def c03_reactions(out, weight, exact=None, utol=None):
     ext = extent(out)
     # each equation is met within eps: the imbalance is a sum of at most n residuals (forces),
     # each with a lever arm of at most ~2 x extent for the moment
-    tols = (n * eps, n * eps, n * eps * (1 + 2 * ext))
+    rf, rm = reaction_rounding(out)
+    tols = (n * eps + rf, n * eps + rf, n * eps * (1 + 2 * ext) + rm + 2 * ext * rf)
     names = ("sum of Fx", "sum of Fy", "sum of moments about the origin")
     for k in range(3):
         if abs(S3[k]) > tols[k] + Fr(1, 10 ** 9) * M3[k]:
